@@ -433,6 +433,7 @@ static void unpark(struct sthr *t)
 
 static inline void mem_store(uintptr_t a, uint64_t v, unsigned sz)
 {
+	rt_acc_addr = a;
 	switch (sz) {
 	case 1: __atomic_store_n((uint8_t *) a, (uint8_t) v, __ATOMIC_RELAXED); break;
 	case 2: __atomic_store_n((uint16_t *) a, (uint16_t) v, __ATOMIC_RELAXED); break;
@@ -443,6 +444,7 @@ static inline void mem_store(uintptr_t a, uint64_t v, unsigned sz)
 
 static inline uint64_t mem_load(uintptr_t a, unsigned sz)
 {
+	rt_acc_addr = a;
 	switch (sz) {
 	case 1: return __atomic_load_n((uint8_t *) a, __ATOMIC_RELAXED);
 	case 2: return __atomic_load_n((uint16_t *) a, __ATOMIC_RELAXED);
